@@ -5,6 +5,7 @@ coq/Gen/PureFmt.v (the slicing algorithms of FmtStr: methods and properties with
 local lists; splice / append / setslice_with_length / setitem / __add__ / __radd__ with chained comparisons
 (ECmpChain), keyword arguments (ECallKw), method calls with several arguments (EMethN), a filtered generator
 expression (EGenIf), isinstance against a tuple of class names, assert with a message expression (SAssertMsg);
+join with its loop over the items and its TypeError; __mul__ = sum(generator over range(n), FmtStr());
 proofs Proofs/PureTie*.v, context Spec/PyEnvFmt.v).  Beside the trees of PureFmt.v it dumps, from the live
 module, the names of the module's classes the functions mention (py_classes: checked to have no subclasses, no
 bases, no metaclass -- isinstance is decided by the class name of an object) and the parameter names of the
@@ -62,6 +63,8 @@ FUNCTIONS_FMT = [
     ("curtsies.formatstring", "FmtStr.append", "py_FmtStr_append"),
     ("curtsies.formatstring", "FmtStr.setslice_with_length", "py_FmtStr_setslice_with_length"),
     ("curtsies.formatstring", "FmtStr.setitem", "py_FmtStr_setitem"),
+    ("curtsies.formatstring", "FmtStr.join", "py_FmtStr_join"),
+    ("curtsies.formatstring", "FmtStr.__mul__", "py_FmtStr_mul"),
 ]
 FILES = [("Pure.v", FUNCTIONS, True), ("PureFmt.v", FUNCTIONS_FMT, False)]
 
@@ -73,13 +76,16 @@ CMPOP = {ast.Lt: "CLt", ast.LtE: "CLtE", ast.Gt: "CGt", ast.GtE: "CGtE", ast.Eq:
          ast.Is: "CIs", ast.IsNot: "CIsNot", ast.In: "CIn", ast.NotIn: "CNotIn"}
 # names the interpreter treats as builtins (functions and classes): must not be shadowed by the module
 BUILTINS = {"len", "ord", "abs", "bool", "int", "all", "any", "max", "min", "isinstance", "slice", "range",
-            "bytes", "str", "zip"}
+            "bytes", "str", "zip", "sum"}
 # module-level data dumped by gen/gen_tables.py from the same live module (coq/Gen/Tables.v)
 TABLE_GLOBALS = {"curtsies.events": {"CURTSIES_NAMES", "CURSES_NAMES", "KEYMAP_PREFIXES", "MAX_KEYPRESS_SIZE"}}
 STDLIB_MODULES = {"codecs"}
 # builtin constants that are NOT values of the subset: reading one is an error outcome of the interpreter (the name
 # is unbound there); the translator only checks that the module does not rebind them
 UNMODELLED_BUILTINS = {"NotImplemented"}
+# builtins that may occur ONLY inside the message of a raise (`"... %r ..." % type(x)`: the message is not modelled, see
+# message_ok); anywhere else they are outside the subset.  The translator checks that the module does not rebind them
+MESSAGE_BUILTINS = {"type"}
 # module-level names that are NOT translated: their meaning is a named oracle of Spec/PyEnvFmt.v.  The
 # translator only checks that the name is bound to what the oracle is about:
 #   "class"    a class defined in this module;      "function" a function defined in this module;
@@ -131,6 +137,8 @@ def call_arg(e):
 
 def expr(e):
     if isinstance(e, ast.Name):
+        if e.id in MESSAGE_BUILTINS:
+            bad(e, "%s outside the message of an exception" % e.id)
         return "(EVar %s)" % q(e.id)
     if isinstance(e, ast.Constant):
         v = e.value
@@ -235,8 +243,9 @@ def block(stmts, ind):
 def message_ok(m):
     """the message of raise X(msg) / assert c, msg is not modelled (exceptions are identified by their
     class): it must be an expression whose evaluation cannot itself raise for the values of the subset --
-    a string constant, an f-string over plain names, or `constant % name` with a single %r / %s conversion
-    (there are no tuples)"""
+    a string constant, an f-string over plain names, or `constant % name` / `constant % type(name)` with a
+    single %r / %s conversion (there are no tuples; the class of a value is never a tuple, and its repr / str
+    is the one of `type`: the classes of the subset have no metaclass)"""
     if isinstance(m, ast.Constant) and type(m.value) is str:
         return True
     if isinstance(m, ast.JoinedStr):                       # f"... {name!r} ..."
@@ -245,7 +254,11 @@ def message_ok(m):
                        and v.conversion in (-1, 114, 115) and v.format_spec is None)
                    for v in m.values)
     if (isinstance(m, ast.BinOp) and isinstance(m.op, ast.Mod) and isinstance(m.left, ast.Constant)
-            and type(m.left.value) is str and isinstance(m.right, ast.Name)):
+            and type(m.left.value) is str
+            and ((isinstance(m.right, ast.Name) and m.right.id not in MESSAGE_BUILTINS)
+                 or (isinstance(m.right, ast.Call) and isinstance(m.right.func, ast.Name) and m.right.func.id == "type"
+                     and not m.right.keywords and len(m.right.args) == 1 and isinstance(m.right.args[0], ast.Name)
+                     and m.right.args[0].id not in MESSAGE_BUILTINS))):
         f = m.left.value
         return f.count("%") == 1 and (("%r" in f) or ("%s" in f))
     return False
@@ -310,13 +323,30 @@ def stmt(s, ind):
     bad(s, "statement outside the subset")
 
 
+def walk_evaluated(root):
+    """ast.walk without the annotation of an annotated assignment `x: T = v`: in a function scope Python never
+    evaluates it (the statement is `x = v`, which is how it is translated)"""
+    todo = [root]
+    while todo:
+        n = todo.pop()
+        yield n
+        for name, child in ast.iter_fields(n):
+            if isinstance(n, ast.AnnAssign) and name == "annotation":
+                continue
+            if isinstance(child, ast.AST):
+                todo.append(child)
+            elif isinstance(child, list):
+                todo.extend(x for x in child if isinstance(x, ast.AST))
+
+
 def free_names(fd):
     """names read in the body or the default values of the function (annotations are not evaluated by the
-    interpreter) that are not its parameters, assigned variables or comprehension variables"""
+    interpreter, nor by Python inside a function body) that are not its parameters, assigned variables or
+    comprehension variables"""
     bound = {a.arg for a in fd.args.args}
     loads = set()
     for root in list(fd.body) + list(fd.args.defaults):
-        for n in ast.walk(root):
+        for n in walk_evaluated(root):
             if isinstance(n, ast.Name):
                 if isinstance(n.ctx, ast.Load):
                     loads.add(n.id)
@@ -330,7 +360,7 @@ def check_free_names(modname, mod, fname, fd, enums):
     translated = {f for m, f, _ in FUNCTIONS + FUNCTIONS_FMT if m == modname and "." not in f}
     g = vars(mod)
     for n in sorted(free_names(fd)):
-        if n in BUILTINS or n in EXN or n in UNMODELLED_BUILTINS:
+        if n in BUILTINS or n in EXN or n in UNMODELLED_BUILTINS or n in MESSAGE_BUILTINS:
             if n in g or not hasattr(builtins, n):
                 raise TieError("%s.%s: builtin %s is shadowed by the module" % (modname, fname, n))
             continue
